@@ -546,7 +546,8 @@ func execL(t *testing.T, raw json.RawMessage) *sim.Outcome {
 		switch {
 		case !authentic || e.Dial == "refuse" || e.Dial == "stall":
 			class[i] = "bad"
-		case e.Dial == "cut":
+		case e.Dial == "cut" || e.Dial == "slow":
+			// a cut connection may or may not be retried in time; latency may exceed the per-try timeout
 			class[i] = "maybe"
 		case first.Kind == "ok" && first.NCerts > 0:
 			class[i] = "good"
